@@ -165,6 +165,18 @@ round7 = {
 for k, v in round7.items():
     claimed[k]["text"] += v
 
+# parts added after the eighth (half) round of seeded changes (DESIGN.md §11.9)
+round8 = {
+ "C09": " Stale-handle part: a Dump backfill started by name (Scopes) through a handle whose cache predates the collection's drop and re-creation must deliver the documents of the collection that exists now.",
+ "C11": " Order class far-deadline-in-lower-collection in the sibling-expiry part: a deadline an hour away in the default collection must not keep the timer from being re-armed for the named collection's next deadline.",
+ "C12": " Emitted string keys include mixed case and punctuation, whose byte order differs from their JSON collation order.",
+ "C13": " In-memory-URL part: an in-memory bucket opened at <directory of an on-disk bucket>?mode=memory is deleted; the on-disk bucket must reopen with its data.",
+ "C14": " Order class far-deadline-in-lower-collection.",
+ "C16": " Feed kind terminator-closed-before-start: the feed must report done like any other.",
+}
+for k, v in round8.items():
+    claimed[k]["text"] += v
+
 pending_reason = "check under construction in this session (design in DESIGN.md); it is claimed once its monitors are built and silent on the unchanged tree"
 m = {
  "version": 1,
